@@ -746,7 +746,25 @@ func (e *OpEngine) DataInstances(want func(string) bool, b DataBounds) []*DataCa
 	var thrDot, thrMM [][2][]int
 	for _, c := range e.smallThresholds() {
 		thrDot = append(thrDot, [2][]int{{c + 1}, {c + 1}})
-		thrMM = append(thrMM, [2][]int{{2, c + 1}, {c + 1, 2}}, [2][]int{{c + 1, 2}, {2, 1}})
+		// each of (rows, inner, columns) just beyond the constant while the other two are 1 or 2
+		for pos := 0; pos < 3; pos++ {
+			for _, o1 := range []int{1, 2} {
+				for _, o2 := range []int{1, 2} {
+					mnk := [3]int{}
+					others := []int{o1, o2}
+					oi := 0
+					for i := range mnk {
+						if i == pos {
+							mnk[i] = c + 1
+						} else {
+							mnk[i] = others[oi]
+							oi++
+						}
+					}
+					thrMM = append(thrMM, [2][]int{{mnk[0], mnk[1]}, {mnk[1], mnk[2]}})
+				}
+			}
+		}
 	}
 	for _, c := range e.SizeThresholds() {
 		if c > 40 {
